@@ -371,7 +371,7 @@ func C09(tier string) int {
 	if tier == "thorough" {
 		E = []uint64{0, 1, 2, 3, 5, 1<<63 - 1}
 		depth = 4
-		budget = 40 * time.Minute
+		budget = 15 * time.Minute
 		sizes = nil
 		for n := 1; n <= 300; n++ {
 			sizes = append(sizes, n)
